@@ -458,7 +458,7 @@ package actions
 //@   ensures existing_untouched: [C02] forall d Id :: old(deliveries.exists(d)) ==> delivery_unchanged(d)
 //@   ensures wakes: [C10] err == nil ==> (forall d Id :: !old(deliveries.exists(d)) && deliveries.exists(d) ==> wake_on_commit(deliveries.subscription_id(d)))
 //@   ensures no_swallowed_failure: [C09] dbfailed() && !old(dbfailed()) ==> err != nil
-//@   modifies T:messages:*, T:deliveries:*, CB:*, E:*ent.DeliveryCreate:, B:[]*ent.DeliveryCreate:*, S:dbfailed, S:wake_on_commit, F:actions.PublishMessage:*, F:actions.publishMessageResults:*, F:actions.actionTimer:*
+//@   modifies T:messages:*, T:deliveries:*, CB:*, E:*ent.DeliveryCreate:, B:[]*ent.DeliveryCreate:*, S:dbfailed, S:wake_on_commit, F:actions.PublishMessage:actionBase.results*, F:actions.publishMessageResults:*, F:actions.actionTimer:*
 //@   loop 1
 //@     invariant len(dc) <= idx + 1
 //@     invariant flags: forall j int :: {dc[j]} 0 <= j && j < len(dc) ==> dc[j] != nil && cb.deliveries.message_id(dc[j]) == m.ID && cb.deliveries.message_id$set(dc[j]) && cb.deliveries.subscription_id$set(dc[j]) &&
